@@ -7,7 +7,7 @@ set -u
 ROOT="$(cd "$(dirname "$0")/.." && pwd)"
 PATCH="$(readlink -f "$1")"; shift
 W="$(mktemp -d /tmp/mut-XXXXXX)"
-trap 'rm -rf "$W"' EXIT
+if [ -n "${MUT_KEEP:-}" ]; then echo "keeping $W"; else trap 'rm -rf "$W"' EXIT; fi
 rsync -a --exclude target --exclude .git /repo/ "$W/repo/"
 if ! (cd "$W/repo" && patch -p1 --quiet < "$PATCH"); then
   echo "$(basename "$PATCH") PATCH-DOES-NOT-APPLY"; exit 2
